@@ -5,7 +5,8 @@
 (* tree the specification assigns to the resulting source text             *)
 (* (Lex, then Classify).                                                   *)
 (*   Family "words":   the string w is a word; sources  w,  w-w,  w+w,     *)
-(*                     a-w,  we-3,  w 1  (juxtaposition),  0xw,  w-1,  w+9     *)
+(*                     a-w,  we-3,  w 1  (juxtaposition),  0xw,  w-1,  w+9,    *)
+(*                     -w,  +w                                             *)
 (*   Family "raw":     the string is the source text itself (blanks at     *)
 (*                     either end, lone & and |, stray quotes, comments)   *)
 (*   Family "strings": the string t is a string body; sources  quote(t)    *)
@@ -68,7 +69,8 @@ SourcesOf(w) ==
   IF Family = "raw" THEN {w}            \* the string itself is the source: leading / trailing blanks, lone & and |, stray quotes
   ELSE IF Family = "words"
   THEN {w, w \o <<45>> \o w, w \o <<43>> \o w, <<97, 45>> \o w, w \o <<101, 45, 51>>, w \o <<32, 49>>, <<48, 120>> \o w,
-        w \o <<45, 49>>, w \o <<43, 57>>}                                   \* w-1, w+9: a signed exponent after any head (1e, 1E, .5e, 1.E)
+        w \o <<45, 49>>, w \o <<43, 57>>,                                   \* w-1, w+9: a signed exponent after any head (1e, 1E, .5e, 1.E)
+        <<45>> \o w, <<43>> \o w}                                          \* -w, +w: a sign glued to the word is an operator, never part of it
   ELSE {QuoteText(w), <<QUOTE>> \o w \o <<QUOTE>>, <<120, 32, 61, 32>> \o QuoteText(w) \o <<59, 32, 120>>}
 Sources == SourcesOf(s)
 
